@@ -11,7 +11,7 @@ ID = "C14"
 MODULES = ["hta.trace_analysis"]
 MUST_NOT_RAISE = True
 REPLICABLE = True          # tie-order witnesses are replayed natively on a 4-fold replicated trace as well
-BUDGET_S = {"quick": 420, "thorough": 3000}
+BUDGET_S = {"quick": 420, "thorough": 1200}
 S1, S2 = 7, 20
 COPY = {"D": ("Memcpy DtoD (Device -> Device)", "gpu_memcpy", "Memcpy DtoD"),
         "H": ("Memcpy HtoD (Pageable -> Device)", "gpu_memcpy", "Memcpy HtoD"),
